@@ -25,6 +25,8 @@ def run(tier, seed, replay_rows=None):
         # cooperative pool schedules (idle-with-pending clause) and the free-running all-workers-usable stress
         runtraces.extra(ck, "C04", "c02", "c02.ndjson")
         runtraces.extra(ck, "C04", "c02stress", "c02stress.ndjson")
+        # users mode at yield-point grain: cooperative schedules of the real ContinuousPool (bodies held: all workers busy)
+        runtraces.extra(ck, "C04", "cpool", "cpool.ndjson")
     return ck.finish()
 
 
